@@ -45,11 +45,14 @@ structure MG (N : Nat) (e : Env) (σ : Subst) : Prop where
   eok : EOk N e
   mgu : IsMGU e σ
   igen : IGeneral e σ
+  /-- the context variable 0 is unbound or bound to a term without variables -/
+  zero : ∀ t, e.lookup 0 = some t → ∀ x, t.hasVar x = false
 
 theorem MG.mono {N N' : Nat} {e : Env} {σ : Subst} (h : MG N e σ) (hN : N ≤ N') : MG N' e σ :=
-  ⟨h.eok.mono hN, h.mgu, h.igen⟩
+  ⟨h.eok.mono hN, h.mgu, h.igen, h.zero⟩
 
-theorem mg_nil (N : Nat) : MG N [] (fun v => .var v) := ⟨eok_nil N, isMGU_empty, igeneral_nil⟩
+theorem mg_nil (N : Nat) : MG N [] (fun v => .var v) :=
+  ⟨eok_nil N, isMGU_empty, igeneral_nil, fun t h => by simp [Env.lookup] at h⟩
 
 /-- binding an unbound variable to a resolved term, when the result is solvable -/
 theorem mg_bind {N : Nat} {e : Env} {σ : Subst} (h : MG N e σ) (v : Nat) (y' : Term)
@@ -74,16 +77,19 @@ theorem mg_bind {N : Nat} {e : Env} {σ : Subst} (h : MG N e σ) (v : Nat) (y' :
       have := occurs_no_solution hh hne' θ
       rw [h.mgu.subst_general θ hθ.1 y'] at this
       exact this hθ.2
-  refine ⟨_, ?_, isMGU_bind e σ v y' h.mgu hv hocc, igeneral_bind v y' h.igen hv⟩
-  intro w t hl
-  rw [Env.lookup_bind] at hl
-  by_cases hvw : v = w
-  · subst hvw
-    simp only [if_true, Option.some.injEq] at hl
-    subst hl
-    exact ⟨hvN.2, hy⟩
-  · simp only [hvw, if_false] at hl
-    exact h.eok w t hl
+  refine ⟨_, ?_, isMGU_bind e σ v y' h.mgu hv hocc, igeneral_bind v y' h.igen hv, ?_⟩
+  · intro w t hl
+    rw [Env.lookup_bind] at hl
+    by_cases hvw : v = w
+    · subst hvw
+      simp only [if_true, Option.some.injEq] at hl
+      subst hl
+      exact ⟨hvN.2, hy⟩
+    · simp only [hvw, if_false] at hl
+      exact h.eok w t hl
+  · intro t hl
+    rw [Env.lookup_bind, if_neg (by omega)] at hl
+    exact h.zero t hl
 
 mutual
   /-- **one unification**: the invariant survives a successful unchecked `unify` whose resulting
@@ -256,15 +262,25 @@ theorem closed_subst {t : Term} (h : ∀ x, t.hasVar x = false) (θ : Subst) : t
 
 /-- `arrive` rebinds variable 0 to a ground term -/
 theorem mg_rebind0 {N : Nat} {e : Env} {σ : Subst} (h : MG N e σ) (hN : 0 < N) (t : Term)
-    (ht : ∀ x, t.hasVar x = false) (hσ0 : e.lookup 0 = none ∨ σ 0 ≠ .var 0) :
+    (ht : ∀ x, t.hasVar x = false) :
     MG N (e.bind 0 t) (fun u => if u = 0 then t else σ u) := by
+  have hσ0 : e.lookup 0 = none ∨ σ 0 ≠ .var 0 := by
+    cases hl : e.lookup 0 with
+    | none => exact Or.inl rfl
+    | some t0 =>
+      right
+      rw [h.mgu.sol 0 t0 hl, closed_subst (h.zero t0 hl)]
+      intro he
+      have := h.zero t0 hl 0
+      rw [he] at this
+      simp [Term.hasVar] at this
   have hran : ∀ w s, e.lookup w = some s → s.hasVar 0 = false := by
     intro w s hl
     cases hh : s.hasVar 0 with
     | false => rfl
     | true => exact absurd ((h.eok w s hl).2 0 hh).1 (Nat.lt_irrefl 0)
   have hσ : ∀ u, u ≠ 0 → (σ u).hasVar 0 = false := fun u hu => h.mgu.not_in_range (Ne.symm hu) hran hσ0
-  refine ⟨?_, ?_, igeneral_rebind 0 t h.igen hran hσ ht⟩
+  refine ⟨?_, ?_, igeneral_rebind 0 t h.igen hran hσ ht, ?_⟩
   · intro w s hl
     rw [Env.lookup_bind] at hl
     by_cases hw : 0 = w
@@ -274,6 +290,12 @@ theorem mg_rebind0 {N : Nat} {e : Env} {σ : Subst} (h : MG N e σ) (hN : 0 < N)
       exact ⟨hN, closed_tok ht⟩
     · simp only [hw, if_false] at hl
       exact h.eok w s hl
+  rotate_left
+  · intro t' hl
+    rw [Env.lookup_bind] at hl
+    simp only [if_true, Option.some.injEq] at hl
+    subst hl
+    exact ht
   · have hsub : ∀ s : Term, s.hasVar 0 = false →
         s.subst (fun u => if u = 0 then t else σ u) = s.subst σ := by
       intro s hs
